@@ -24,7 +24,8 @@ ASSUMPTIONS = [
     "CA categories as *table* dimension and X x NUM_ARRAY are not generated",
 ]
 
-ALL_SHAPES = scen.SHAPES_2D * 2 + scen.SHAPES_NA + scen.SHAPES_1D + scen.SHAPES_3D + [()]
+ALL_SHAPES = scen.SHAPES_2D * 2 + scen.SHAPES_NA + scen.SHAPES_NA3 + scen.SHAPES_1D + \
+    scen.SHAPES_3D + [()]
 
 
 def _is_nontrivial(case):
